@@ -39,11 +39,12 @@ def gen_steps(prog, wl, fl, nsteps, *, p_reset=0.1, p_coincide=0.3, ctl_bias=0.5
     # start with the inserted enables mostly on
     for c in ctls:
         if wl.random() < 0.6:
-            steps.append({"k": "set", "s": c, "v": 1})
+            steps.append({"k": "set", "s": c, "v": 1 if sigs[c]["width"] == 1 else wl.randrange(1, 1 << sigs[c]["width"])})
     while len(steps) < nsteps:
         for _ in range(wl.choice([0, 1, 1, 2, 3])):
             if ctls and wl.random() < ctl_bias * 0.4:
-                steps.append({"k": "set", "s": wl.choice(ctls), "v": wl.randint(0, 1)})
+                c = wl.choice(ctls)
+                steps.append({"k": "set", "s": c, "v": wl.randint(0, 1) if sigs[c]["width"] == 1 else wl.randrange(1 << sigs[c]["width"])})
             elif inputs and p_setx and wl.random() < p_setx:
                 c = wl.choice(in_chunks)
                 t = gx.target(c, [x for x in in_chunks if x[0] != c[0] and wl.random() < 0.7], list(range(len(sigs))))
